@@ -649,7 +649,9 @@ func (e *Exec) fpHard(t *Term) bool {
 	}
 	r := false
 	switch t.Op {
-	case "to_fp_s", "to_fp_u", "fp.to_sbv", "fp.to_ubv", "fp.add", "fp.sub", "fp.mul", "fp.div", "fp.sqrt", "fp.roundToIntegral", "fp.from_bits":
+	case "to_fp_s", "to_fp_u":
+		r = t.Args[0].S.W > 32 // narrow integer conversions are cheap for the incremental core
+	case "fp.to_sbv", "fp.to_ubv", "fp.mul", "fp.div", "fp.sqrt", "fp.roundToIntegral", "fp.from_bits":
 		r = true
 	}
 	if !r {
